@@ -323,3 +323,42 @@ def post_iadd_view_any(r):
     if r.k < n:
         return texts(view(r.self, r.k)) == texts(view(r.old_self, r.k))
     return texts(view(r.self, r.k)) == texts(operand_view(r.old_value, r.k - n))
+
+
+# ------------------------------------------------------------------------------------------ F2
+def collect_settings(v, out):
+    """all AnsiSetting objects reachable from a settings argument (nested lists/tuples, AnsiFormat members)"""
+    if isinstance(v, str) or isinstance(v, int):
+        return out
+    if hasattr(v, 'ansi_settings'):
+        for x in v.ansi_settings:
+            collect_settings(x, out)
+        return out
+    if isinstance(v, list) or isinstance(v, tuple):
+        for x in v:
+            collect_settings(x, out)
+        return out
+    out.append(v)
+    return out
+
+
+def post_scrub_unique(r):
+    """with make_unique every returned setting is a new object: it is none of the caller's setting objects (so a
+    stop marker can never alias a setting that is stored somewhere else) and no object is returned twice"""
+    given = collect_settings(r.old_settings, [])
+    i = 0
+    for x in r.result:
+        if index_is(given, x) >= 0:
+            return False
+        j = 0
+        for y in r.result:
+            if i < j and x is y:
+                return False
+            j += 1
+        i += 1
+    return True
+
+
+def post_scrub_flattens(r):
+    """nested lists/tuples of AnsiSetting objects are flattened in order, texts unchanged"""
+    return texts(r.result) == texts(collect_settings(r.old_settings, []))
